@@ -974,14 +974,14 @@ def corr_mcca(seed, tier):
                "transform": [np.asarray(t.transpose("time", "mode").values, dtype=float) for t in tf],
                "subset": kw.get("subset_by_index")}
         reqs.append({"fn": "mcca", "n": n, "P": P, "Q": Q, "k": k, "nv": nv, "m": 5, "blkP": blkP, "blkQ": blkQ, "Xpc": bits(Xpc), "Xphys": bits(Xphys),
-                     "B": bits(B), "c": bits(cs), "shift": f2b(shift), "pca": pca, "expvar": bits(expvar), "E": bits(evecs), "lam0": bits(evals),
+                     "B": bits(B), "c": bits(cs), "lmin": f2b(lmin), "eps": f2b(1e-6), "pca": pca, "expvar": bits(expvar), "E": bits(evecs), "lam0": bits(evals),
                      "Xnew": bits(np.hstack(newpre))})
         exps.append((exp, small, (n, P, Q, k, nv), blkQ))
     for (exp, small, (n, P, Q, k, nv), blkQ), ans in zip(exps, ask(reqs)):
         if ans.get("status") != "ok":
             R.cmp("status", False, small, ans, "ok")
             continue
-        R.cmp("subset_by_index", list(exp["subset"]) == [P - k, P - 1], small, [P - k, P - 1], exp["subset"])
+        R.cmp("subset_by_index", list(exp["subset"]) == list(ans["subset"]), small, ans["subset"], exp["subset"])
         scaleC = max(1.0, float(np.abs(exp["D"]).max()))
         for key in ("C", "D"):
             got = unbits(ans[key], (P, P))
